@@ -156,7 +156,7 @@ Definition gsv_outcome (f : frame) : option (N * N) :=
   if max_buffered <? f_len f then None
   else if f_typ f =? T_ErrorMessage then
     match f_info f with
-    | IStatus code => if (code =? Status_VerUnsupported) || (code =? Status_Success) then Some (1, 1) else None
+    | IStatus code => if code =? Status_VerUnsupported then Some (1, 1) else None   (* /repo 6e714d1: Success is no longer read as 110 *)
     | _ => None
     end
   else if f_typ f =? T_GetSupportedVersionResponse then
